@@ -262,7 +262,7 @@ def run(ctx: common.Ctx):
             ctx.broken.append({"kind": "impl-call", "what": "_create_platform_version", "error": repr(e)})
 
     # ---- paired runs ----------------------------------------------------------------------------------------------------------------
-    inputs = corpus_inputs(ctx) + generated_inputs(ctx, 1 if ctx.quick else 6)
+    inputs = corpus_inputs(ctx) + generated_inputs(ctx, 1 if ctx.quick else 4)
     nopt = 2 if ctx.quick else 4
     rnd_seed = str(ctx.rng.randint(2, 2 ** 31 - 1))
     scratch = ctx.scratch
